@@ -165,7 +165,7 @@ def judge(prog, cfg, cdc, v, res, case):
         parsed = call(json.loads, enc.val)
         if not parsed.ok:
             res.violation(f"C02/valid-json/{cfg}/{term.sig()}", f"encoded bytes are not valid JSON for the stdlib parser: {short(enc.val, 80)}", case)
-        elif not m.ok or not same(parsed.val, m.val):
+        elif not m.ok or not same(parsed.val, E.plain_wire(m.val)):
             res.violation(f"C02/json-is-marshal/{cfg}/{term.sig()}/{E.feature(v)}",
                           f"json.loads(encoded)={short(parsed.val, 80)} but marshal(v, t=T)={short(m.val if m.ok else m.exc, 80)} for {term.src}, v={short(v, 80)}", case)
     # (3) entry points agree
